@@ -2,6 +2,7 @@ import Witverif.Abi.CHostImage
 import Witverif.Abi.Gen
 import Witverif.Abi.CSig
 import Witverif.Abi.CProfile
+import Witverif.Text.CIdent
 import Drivers.Util
 import Drivers.AbiParse
 /-! Driver `m_chost` (C10, C11, C12): the Lean canonical-ABI specification acting as the
@@ -16,6 +17,7 @@ One request per line, fields separated by `|` (protocol documented in harness/c-
   layout|<p>|<T>                → size=<n> align=<n> csize=<n> calign=<n>   (canonical vs. C struct layout model)
   cfree|<p>|<late 0|1>|<T>|<VAL> → ok sizes=<n,…>   byte sizes of the blocks the generated `<T>_free` helper frees, in order
                                   (late = 1: helper generated in a pass after the one that defined the shared anonymous types)
+  ident|<hex name>              → <hex to_c_ident(name)>  (model over the regenerated escape table)
   dtor|<hex module>|<hex resource name>  → <hex model export name> <hex spec export name>
   csig|<flat 0|1>|(<shape> …)|<shape or _>  → params=<v0,p1,m2,o:ok,…> ret=<void|value|bool-option|bool-result> names=<ret,err,…>
 -/
@@ -119,6 +121,10 @@ def handle (line : String) : String :=
             | none => 0
           "ok sizes=" ++ natsStr sizes
       | _, _, _ => "bad-request"
+  | ["ident", n] =>
+      match hexToChars n with
+      | some n => charsToHex (Witverif.Text.CIdent.toCIdent n)
+      | none => "bad-request"
   | ["dtor", m, n] =>
       match hexToChars m, hexToChars n with
       | some m, some n => charsToHex (CProfile.cDtorExportName m n) ++ " " ++ charsToHex (CProfileSpec.dtorExportName m n)
